@@ -54,6 +54,7 @@ struct World
   std::set<std::pair<int, i64>> inject;
   i64 max_steps = 0;
   std::map<pthread_mutex_t *, int> owner;
+  std::map<pthread_mutex_t *, int> depth;           // lock count of the owner (recursive mutexes)
   std::map<pthread_mutex_t *, std::vector<u64>> mutex_vc;
   std::map<void *, int> guard_owner;              // function-local static being initialised by that task
   std::map<void *, std::vector<u64>> guard_vc;
@@ -323,6 +324,7 @@ int __wrap_pthread_mutex_lock(pthread_mutex_t * m)
       int rc = __real_pthread_mutex_trylock(m);
       if (rc == 0) {
         w->owner[m] = t->id;
+        w->depth[m]++; // recursive mutexes: released when the count is back to 0
         w->res.mutex_acquires++;
         auto & mv = w->mutex_vc[m];
         if (mv.size() == t->vc.size()) for (size_t i = 0; i < mv.size(); i++) if (mv[i] > t->vc[i]) t->vc[i] = mv[i];
@@ -358,6 +360,7 @@ int __wrap_pthread_mutex_trylock(pthread_mutex_t * m)
   int rc = __real_pthread_mutex_trylock(m);
   if (rc == 0) {
     w->owner[m] = t->id;
+    w->depth[m]++;
     auto & mv = w->mutex_vc[m];
     if (mv.size() == t->vc.size()) for (size_t i = 0; i < mv.size(); i++) if (mv[i] > t->vc[i]) t->vc[i] = mv[i];
   }
@@ -371,6 +374,8 @@ int __wrap_pthread_mutex_unlock(pthread_mutex_t * m)
   WrapScope ws_;
   auto it = w->owner.find(m);
   if (it == w->owner.end() || it->second != t->id) return __real_pthread_mutex_unlock(m); // not tracked (locked before the run)
+  if (w->depth[m] > 1) { w->depth[m]--; return __real_pthread_mutex_unlock(m); } // still held by this task (recursive mutex)
+  w->depth[m] = 0;
   w->mutex_vc[m] = t->vc;
   t->vc[(size_t)t->id]++;
   w->owner[m] = -1;
